@@ -122,7 +122,7 @@ func lockTable(fset *token.FileSet, files []*ast.File) string {
 				}
 			}
 			w := &walker{fset: fset, structs: structs, tracked: tracked, env: env, fn: fname, accs: &accs}
-			w.block(fd.Body.List, nil)
+			w.body(fd.Body.List, nil)
 		}
 	}
 	// ---- interprocedural pass ----
@@ -321,6 +321,52 @@ type walker struct {
 	env     map[string]string
 	fn      string
 	accs    *[]access
+	defers  []deferEntry // defer stack of the function body being walked
+}
+
+// deferEntry is one `defer` of the function body being walked: a deferred
+// unlock, or a deferred closure (walked when the stack is unwound, LIFO, with
+// the locks still held at that point).
+type deferEntry struct {
+	unlock string
+	fl     *ast.FuncLit
+}
+
+// runDefers unwinds a defer stack at function exit.  Locks held at exit are
+// those passed in plus every lock whose unlock was deferred (explicit
+// Lock/Unlock pairs are assumed balanced by then).
+func (w *walker) runDefers(base []string, ds []deferEntry) {
+	held := append([]string{}, base...)
+	for _, d := range ds {
+		if d.unlock != "" {
+			found := false
+			for _, h := range held {
+				if h == d.unlock {
+					found = true
+				}
+			}
+			if !found {
+				held = append(held, d.unlock)
+			}
+		}
+	}
+	for i := len(ds) - 1; i >= 0; i-- {
+		if ds[i].unlock != "" {
+			held = without(held, ds[i].unlock)
+		} else {
+			w.funcLit(ds[i].fl, held)
+		}
+	}
+}
+
+// body walks a function body and then its deferred calls.
+func (w *walker) body(stmts []ast.Stmt, held []string) {
+	saved := w.defers
+	w.defers = nil
+	w.block(stmts, held)
+	ds := w.defers
+	w.defers = saved
+	w.runDefers(held, ds)
 }
 
 // typeOf infers the tracked struct type of an expression, or "".
@@ -449,12 +495,12 @@ func (w *walker) stmt(s ast.Stmt, held []string) []string {
 		w.expr(t.X, held, false)
 	case *ast.DeferStmt:
 		if l, op := w.lockCall(t.Call); l != "" && (op == "Unlock" || op == "RUnlock") {
-			_ = l // stays held until the function returns
+			w.defers = append(w.defers, deferEntry{unlock: l}) // stays held until the function returns
 			return held
 		}
 		if fl, ok := t.Call.Fun.(*ast.FuncLit); ok {
-			// deferred closure: runs at return; locks held at that point are unknown: assume those deferred-unlocked are released (conservative: none held)
-			w.funcLit(fl, nil)
+			// deferred closure: walked when the defer stack is unwound (runDefers), with the locks held then
+			w.defers = append(w.defers, deferEntry{fl: fl})
 		} else {
 			w.expr(t.Call, held, false)
 		}
@@ -592,7 +638,7 @@ func (w *walker) funcLit(fl *ast.FuncLit, held []string) {
 			w.env[n.Name] = tn
 		}
 	}
-	w.block(fl.Body.List, held)
+	w.body(fl.Body.List, held)
 }
 
 var atomicMethods = map[string]bool{"Load": true, "Store": true, "CompareAndSwap": true, "Add": true, "Swap": true}
@@ -635,6 +681,15 @@ func (w *walker) expr(e ast.Expr, held []string, write bool) {
 		}
 		if fl, ok := t.Fun.(*ast.FuncLit); ok {
 			w.funcLit(fl, held)
+		} else if sel, ok := t.Fun.(*ast.SelectorExpr); ok && w.isField(sel) {
+			// x.f(...): a call through a function-valued field (callback)
+			w.record(sel, false, held, "call")
+			w.expr(sel.X, held, false)
+		} else if sel, ok := t.Fun.(*ast.SelectorExpr); ok && w.isFieldSel(sel.X) {
+			// x.f.M(...): a method invoked on the value of a field (e.g. the carrier stream's Send)
+			inner := sel.X.(*ast.SelectorExpr)
+			w.record(inner, false, held, "call")
+			w.expr(inner.X, held, false)
 		} else {
 			w.expr(t.Fun, held, false)
 		}
@@ -683,6 +738,21 @@ func (w *walker) expr(e ast.Expr, held []string, write bool) {
 			}
 		}
 	}
+}
+
+// isField: sel is x.f with x of a tracked struct type and f one of its fields
+func (w *walker) isField(sel *ast.SelectorExpr) bool {
+	st := w.typeOf(sel.X)
+	if st == "" || !w.tracked[st] || w.structs[st] == nil {
+		return false
+	}
+	_, ok := w.structs[st].fields[sel.Sel.Name]
+	return ok
+}
+
+func (w *walker) isFieldSel(e ast.Expr) bool {
+	sel, ok := e.(*ast.SelectorExpr)
+	return ok && w.isField(sel)
 }
 
 func (w *walker) record(sel ast.Expr, write bool, held []string, how string) {
